@@ -86,7 +86,12 @@ class SProxy:
         return self._inter
 
     def _identity(self):
-        return isinstance(self._slope, float) and isinstance(self._inter, float) and (self._slope, self._inter) == (1.0, 0.0)
+        """nibabel skips the scaling, and keeps the on-disk type, exactly when slope == 1 and inter == 0 AT THE
+        TIME OF THE READ (decided by forking when the two are symbolic)"""
+        s, i = self._slope, self._inter
+        if isinstance(s, (int, float)) and isinstance(i, (int, float)):
+            return (s, i) == (1, 0)
+        return ctx().interp.truth(And(_real(s) == 1, _real(i) == 0))
 
     def scaled_dtype(self):
         return self.dtype if self._identity() else np.dtype(np.float64)
@@ -353,10 +358,11 @@ class NibabelImageToPrecomputed(Contract):
             imin = self.imin if self.imin is not None else 0
             omin, omax = (float(np.iinfo(out).min), float(np.iinfo(out).max)) if np.dtype(out).kind in "iu" else (0.0, 1.0)
             want = ((r * s0 + i0) - imin) * ((omax - omin) / (self.imax - imin)) + omin
-            in_dtype = np.dtype(np.float64)
         else:
             want = r * s0 + i0
-            in_dtype = np.dtype(np.int16) if "ignore_scaling" in mode else np.dtype(np.float64)
+        # the type of the values nibabel hands out: the on-disk type when the installed mapping is the identity
+        # (decided on this path), float64 otherwise
+        in_dtype = self.proxy.scaled_dtype()
         yield ("mapping-installed-on-the-proxy:raw*slope'+inter'==documented-value-mapping", r * ps + pi == want)
         ta = tr[0][1]["args"]
         yield ("transformer-built-for-(type of the mapped values, info data_type)", ta[0] == in_dtype and ta[1] == np.dtype(out))
@@ -379,3 +385,32 @@ def _eq(a, b):
     if isinstance(a, float) and isinstance(b, float):
         return a == b
     return _real(a) == _real(b) if not (isinstance(a, float) or isinstance(b, float)) else (a == b)
+
+
+def native_identity_rescale_check():
+    """--input-min 0 --input-max 255 on a uint8 volume written as uint8: the combined mapping is the identity"""
+    import json
+    import os
+    import tempfile
+    from neuroglancer_scripts import accessor, precomputed_io, volume_reader
+    with tempfile.TemporaryDirectory() as td:
+        p = os.path.join(td, "a.nii")
+        data = np.arange(24, dtype=np.uint8).reshape(2, 3, 4)
+        _nib.save(_nib.Nifti1Image(data, np.eye(4)), p)
+        dest = os.path.join(td, "out")
+        os.makedirs(dest)
+        info = {"type": "image", "data_type": "uint8", "num_channels": 1, "scales": [
+            {"key": "full", "size": [2, 3, 4], "chunk_sizes": [[64, 64, 64]], "resolution": [1e6, 1e6, 1e6], "voxel_offset": [0, 0, 0], "encoding": "raw"}]}
+        json.dump(info, open(os.path.join(dest, "info"), "w"))
+        try:
+            volume_reader.volume_file_to_precomputed(p, dest, input_min=0, input_max=255)
+            io_ = precomputed_io.get_IO_for_existing_dataset(accessor.get_accessor_for_url(dest))
+            got = io_.read_chunk("full", (0, 2, 0, 3, 0, 4))[0].transpose(2, 1, 0)
+        except Exception as e:
+            return {"reproduced": True, "detail": f"uint8 volume, --input-min 0 --input-max 255, data_type uint8 (identity mapping): {type(e).__name__} {e}"}
+    if not np.array_equal(got, data):
+        return {"reproduced": True, "detail": "identity rescaling changed voxel values"}
+    return {"reproduced": False, "detail": "identity rescaling converts correctly"}
+
+
+NibabelImageToPrecomputed.replay = lambda self, model, cfg, ob_name: native_identity_rescale_check()
